@@ -28,6 +28,9 @@ pub(crate) mod smartcalc;
 pub(crate) mod variable;
 pub(crate) mod session;
 
+#[cfg(feature = "verif")]
+pub mod verif;
+
 #[cfg(test)]
 mod tests;
 
